@@ -34,6 +34,16 @@ fn test(case: &Case, st: &mut Stats) -> TestResult {
             let v = *v;
             let bytes = v.to_be_bytes();
             let got = guard(|| MessageType::from_bytes(&bytes)).map_err(|p| Fail::new("c19-panic", p))?;
+            // the conversion trait is the same decoder
+            let via_try = guard(|| MessageType::try_from(&bytes[..])).map_err(|p| Fail::new("c19-panic", p))?;
+            ensure!(
+                format!("{:?}", via_try) == format!("{:?}", got),
+                "c19-decode",
+                "type field {:#06x}: MessageType::try_from gives {:?}, MessageType::from_bytes gives {:?}",
+                v,
+                via_try,
+                got
+            );
             match refstun::type_decode(v) {
                 None => {
                     st.class("type value with top bits set");
